@@ -93,6 +93,20 @@ class Interp:
             return sub.run_function(self.unit.funcs[e.func.id])
         return UNKNOWN
 
+    def fold_arg(self, a):
+        """an argument that is itself a list method call on a tracked name (`xs.pop(xs.index(v))`) is evaluated on the tracked value, in
+        argument order, with its effect (pop) applied"""
+        if isinstance(a, ast.Call) and isinstance(a.func, ast.Attribute) and isinstance(a.func.value, ast.Name) and a.func.attr in ("pop", "index", "count") \
+                and not a.keywords and isinstance(self.env.get(a.func.value.id, UNKNOWN), list):
+            inner = [self.fold_arg(x) for x in a.args]
+            if any(x is UNKNOWN for x in inner):
+                return UNKNOWN
+            try:
+                return getattr(self.env[a.func.value.id], a.func.attr)(*inner)
+            except Exception:
+                return UNKNOWN
+        return self.fold(a)
+
     def run_function(self, fn):
         try:
             self.block(fn.body)
@@ -112,7 +126,7 @@ class Interp:
             if isinstance(c, ast.Call) and isinstance(c.func, ast.Attribute) and c.func.attr in MUTATORS and isinstance(c.func.value, ast.Name):
                 name = c.func.value.id
                 if name in self.env and self.env[name] is not UNKNOWN:
-                    args = [self.fold(a) for a in c.args]
+                    args = [self.fold_arg(a) for a in c.args]
                     if any(a is UNKNOWN for a in args):
                         self.env[name] = UNKNOWN
                         return
